@@ -75,6 +75,12 @@ CoarseSpansImageP(L, e) ==
     /\ Eq(Coarse(L, 0), <<1, 2>>) /\ Eq(Coarse(L, NM), <<2 * L + 1, 2>>)
     /\ e < NM => ~Leq(Coarse(L, e + 1), Coarse(L, e))
 CoarseSpansImage == OnAxis(CoarseSpansImageP)
+\* L is the length of the DATA array's axis - the image the sampler reads (WcsSampler.sampler() accepts exactly the
+\* array indices 0..L-1, i.e. the 1-based pixel centres 1..L) - whatever grid size the WCS object may remember.
+\* The coarse grid then covers every pixel the sampler can return, edge to edge:
+CoversEveryArrayPixelP(L, e) ==
+    \A p \in 1..L : Leq(Coarse(L, 0), <<2 * p - 1, 2>>) /\ Leq(<<2 * p + 1, 2>>, Coarse(L, NM))
+CoversEveryArrayPixel == (q[1] = "axis" /\ q[3] = 0) => CoversEveryArrayPixelP(q[2], 0)
 
 \* the refined set contains both ends of the refined interval
 EndsIncludedP(L, e) ==
